@@ -901,7 +901,11 @@ func escape(r rune, p *Parser) stateFn {
 		p.oscStart()
 		return oscString
 	default:
-		// Return to ground on unexpected characters
+		// A character outside of ASCII can't be part of an escape
+		// sequence: the sequence is cancelled and the character is
+		// handled as it is in ground (on input this is Alt + a
+		// non-ASCII key, the key must not be lost)
+		p.print(r)
 		return ground
 	}
 }
